@@ -20,8 +20,15 @@
          hypothesis on the root's table entry.
      (5) C04_deepening_keeps_legal_head, C04_randomised_choice_legal, C04_analyze_all_heads_legal: the iterative
          deepening loop, the randomised choice and the AnalyzeAll list only ever report pv[0] or generator-yielded moves.
-   `_partial` = WHAT IS MISSING in (2)-(5) (all three points are closed by (4') for Analyze; GetMove's randomised choice and
-   AnalyzeAll remain abstract):
+     (9) block at the end (third wave), all for the EXECUTED engine model coq/Search.v: C04_analyze_all_heads_legal_executed (every line of
+         AnalyzeAll starts with an accepted move: every configuration, any table, any cancellation point), C04_get_move_randomised_legal
+         (model coq/SearchRand.v of the randomised choice in MinimaxAI.GetMove, random source = oracle stream: the returned move is accepted,
+         every configuration, 0 < RandomizeWindow <= 2^29, any RandomizeScale; it never panics with the default scale), the FINDING
+         C04_get_move_scale_panics (RandomizeScale > RandomizeWindow: rand.Int63n(0) panics, in the model and in the real engine), and
+         C04_pv_replays_precise (the WHOLE reported variation replays legally, for precise configurations without a table, any value,
+         any cancellation point).  Whole-PV replay WITH a table stays tested only; SearchRand.v is not yet executed against the code.
+   `_partial` = WHAT IS MISSING in (2)-(5) (all three points are closed by (4') for Analyze and by (9) for AnalyzeAll and the randomised
+   GetMove):
      - the root-search model of LegalMove.v is abstract and NOT executed against ai/minimax.go (the executed search
        model is coq/Search.v, owned by C05/C16); its shape was transcribed from pvSearch / moveGenerator.Next by hand;
      - the hypothesis "every child value exceeds the root's alpha" (root window (MinEval-1, MaxEval+1) wider than
@@ -40,6 +47,7 @@ Require Import Board Move GameOver Refine RefinePlace2 Inst LegalMove LegalMoveL
 Require Mcts MctsFacts MctsFacts2 MctsFacts3 MctsFacts4 MctsFacts5 MctsFacts6 EvalTotal GameOverFacts2 PtnFileSafe.
 Require Opening OpeningFacts1 OpeningFacts2 OpeningFacts OpeningFacts3 OpeningEx AllMovesFacts5 Preserve1 Preserve5 TpsFacts5 Generated.Consts.
 Require Search SearchExact SearchInst SearchC CancelEx Reach1 Alloc EvalSpec SearchNeg2 SearchNeg5 SearchLegal2 SearchLegal3 SearchLegal4.
+Require SearchAll3 SearchAllLegal2 SearchRand SearchRand3 SearchPv2.
 Import ListNotations.
 
 (* (1) A live position has a legal move and AllMoves lists it.  wf: sizes 3..8, Height/Stacks of length size^2,
@@ -556,3 +564,103 @@ Theorem C04_example_position : SearchNeg2.base_ok SearchNeg5.q4 /\ size SearchNe
   Search.is_over SearchNeg5.q4 = false /\ move SearchNeg5.q4 = 4%Z.
 Proof. exact SearchLegal4.q4_facts. Qed.
 Print Assumptions C04_example_position.
+
+(* ================= (9) third wave: AnalyzeAll, the randomised GetMove and whole-PV replay over the EXECUTED model Search.v =================
+   SearchAll3.analyze_all_cancel basis cfg k = Search.analyze_all_gen false basis cfg k: MinimaxAI.AnalyzeAll (repaired code), context
+     cancelled inside the k-th leaf evaluation (k = 0: never; Search.analyze_all, which ./check C05 executes against the code).
+   SearchAllLegal2.seed_depth s p = the depth of the exact root entry Analyze would start from (0 without one): AnalyzeAll / GetMove
+     search the children to that depth minus one when no iteration runs, so C18's ply limit is asked up to it.
+   Every line of AnalyzeAll is non-empty and starts with a move the repaired MovePreallocated accepts; the state satisfies SJ again. *)
+Theorem C04_analyze_all_heads_legal_executed : forall cfg, SearchNeg5.builtin_eval cfg ->
+  forall k s p sk pvs v d c,
+  SearchLegal2.SJ s -> SearchNeg2.base_ok p -> Search.is_over p = false -> (Preserve1.total p <= 64)%N ->
+  (move p + Z.max 1 (Z.max (Search.c_depth cfg) (SearchAllLegal2.seed_depth s p)) <= EvalSpec.max_terminal_ply)%Z ->
+  SearchLegal3.seed_legal s p ->
+  SearchAll3.analyze_all_cancel Generated.Consts.gen_basis cfg k s p = (sk, (pvs, v, d, c)) ->
+  SearchLegal2.SJ sk /\ Forall (SearchLegal3.head_legal p) pvs /\ Forall (fun l => l <> []) pvs.
+Proof. exact SearchAllLegal2.analyze_all_heads_legal_64. Qed.
+Print Assumptions C04_analyze_all_heads_legal_executed.
+
+Theorem C04_analyze_all_heads_legal_game64 : forall cfg, SearchNeg5.builtin_eval cfg ->
+  forall sz bwt stones caps ms p, (3 <= sz <= 8)%N -> (0 < stones)%N -> (2 * (stones + caps) <= 64)%N ->
+  Reach1.replay (Alloc.new_pos sz bwt stones caps) ms = Ok p -> Search.is_over p = false ->
+  forall k s sk pvs v d c, SearchLegal2.SJ s -> SearchLegal3.seed_legal s p ->
+  (Z.of_nat (length ms) + Z.max 1 (Z.max (Search.c_depth cfg) (SearchAllLegal2.seed_depth s p)) <= EvalSpec.max_terminal_ply)%Z ->
+  SearchAll3.analyze_all_cancel Generated.Consts.gen_basis cfg k s p = (sk, (pvs, v, d, c)) ->
+  SearchLegal2.SJ sk /\ Forall (SearchLegal3.head_legal p) pvs /\ Forall (fun l => l <> []) pvs.
+Proof. exact SearchAllLegal2.analyze_all_heads_legal_game64. Qed.
+Print Assumptions C04_analyze_all_heads_legal_game64.
+
+(* without a table (engine created without one; SearchExact.SI): no seed *)
+Theorem C04_analyze_all_heads_legal_notable : forall cfg, SearchNeg5.builtin_eval cfg ->
+  forall k s p sk pvs v d c,
+  SearchExact.SI s -> SearchNeg2.base_ok p -> Search.is_over p = false -> (Preserve1.total p <= 64)%N ->
+  (move p + Z.max 1 (Search.c_depth cfg) <= EvalSpec.max_terminal_ply)%Z ->
+  SearchAll3.analyze_all_cancel Generated.Consts.gen_basis cfg k s p = (sk, (pvs, v, d, c)) ->
+  Forall (SearchLegal3.head_legal p) pvs /\ Forall (fun l => l <> []) pvs.
+Proof. exact SearchAllLegal2.analyze_all_heads_legal_notable_64. Qed.
+Print Assumptions C04_analyze_all_heads_legal_notable.
+
+(* non-vacuity: depth 3, sorted, null move, slide reduction, multi-cut on, 64-entry table, built-in evaluator, q4 *)
+Theorem C04_example_analyze_all_table :
+  SearchNeg5.builtin_eval SearchAllLegal2.cfgB /\ SearchLegal2.SJ (Search.new_state 64) /\ SearchLegal3.seed_legal (Search.new_state 64) SearchNeg5.q4 /\
+  SearchAllLegal2.seed_depth (Search.new_state 64) SearchNeg5.q4 = 0%Z /\
+  (let '(s1, (pvs, v, d, c)) := Search.analyze_all Generated.Consts.gen_basis SearchAllLegal2.cfgB (Search.new_state 64) SearchNeg5.q4 in
+   (map (hd Search.move0) pvs, v, d, c) = ([{| mX := 2; mY := 0; mT := 2; mS := 0 |}], 960%Z, 3%Z, false)).
+Proof. exact SearchAllLegal2.ex_all_table. Qed.
+Print Assumptions C04_example_analyze_all_table.
+
+(* The randomised move choice of MinimaxAI.GetMove: model SearchRand.get_move basis cfg k rwindow rscale rnd s p (SearchRand.v; rnd = the
+   successive raw values of ai.rand.Int63(), an oracle stream; rscale = Cfg.RandomizeScale after NewMinimax turned 0 into 1; int64
+   arithmetic wraps; Err = the stream ran out, Panic = a Go panic).  Every configuration, any table, any cancellation point, any stream,
+   0 < RandomizeWindow <= 2^29 (= WinThreshold; GetMove never randomises beyond it), ANY RandomizeScale: a move that is returned is the
+   zero move exactly when Analyze reported no line (SearchC.r_pv ... = []), and otherwise is accepted by MovePreallocated at p; the state
+   satisfies SJ again; and the run can only panic if RandomizeScale is not 1 (or AllMoves had 2^31 entries). *)
+Theorem C04_get_move_randomised_legal : forall cfg, SearchNeg5.builtin_eval cfg ->
+  forall k rw rsc rnd s p, (0 < rw <= 2 ^ 29)%Z ->
+  SearchLegal2.SJ s -> SearchNeg2.base_ok p -> Search.is_over p = false -> (Preserve1.total p <= 64)%N ->
+  (move p + Z.max 1 (Z.max (Search.c_depth cfg) (SearchAllLegal2.seed_depth s p)) <= EvalSpec.max_terminal_ply)%Z ->
+  SearchLegal3.seed_legal s p ->
+  match SearchRand.get_move Generated.Consts.gen_basis cfg k rw rsc rnd s p with
+  | Ok (s', m, _) => SearchLegal2.SJ s' /\
+                     (SearchC.r_pv (snd (Search.analyze_cancel Generated.Consts.gen_basis cfg k s p)) = [] /\ m = Search.move0 \/
+                      exists q, Refine.mv p m = Ok q)
+  | Err => True
+  | Panic => ~ (rsc = 1%Z /\ (Z.of_nat (length (all_moves p)) + 8 < 2 ^ 31)%Z)
+  end.
+Proof. exact SearchRand3.get_move_legal_64. Qed.
+Print Assumptions C04_get_move_randomised_legal.
+
+(* non-vacuity: depth 2, NoSort, null move / slide reduction / multi-cut on, 64-entry table, RandomizeWindow 10, scale 1, ten raw values:
+   a legal move comes back and two values of the stream were used *)
+Theorem C04_example_get_move_random :
+  exists m used, SearchRand3.gm_obs (SearchRand.get_move Generated.Consts.gen_basis SearchRand3.cfgr 0 10 1 [5; 0; 3; 0; 0; 0; 0; 0; 0; 0]%N (Search.new_state 64) SearchRand3.p2)
+                 = Ok (m, (10 - used)%nat) /\ (exists q, Refine.mv SearchRand3.p2 m = Ok q) /\ (1 <= used)%nat.
+Proof. exact SearchRand3.getmove_random_ok. Qed.
+Print Assumptions C04_example_get_move_random.
+
+(* FINDING (model; the real engine does the same - ai.MinimaxConfig{Size: 3, Depth: 2, RandomizeWindow: 10, RandomizeScale: 100} on the 3x3
+   position after a1 c3 panics with "invalid argument to Int63n"): with RandomizeScale larger than RandomizeWindow (or negative) the first
+   counted move has pts = (cv - base) / scale = 0, the counter i is 0 and ai.rand.Int63n(i) panics: GetMove crashes on a live position. *)
+Theorem C04_get_move_scale_panics :
+  SearchRand3.gm_obs (SearchRand.get_move Generated.Consts.gen_basis SearchRand3.cfgr 0 10 100 [5; 0; 3; 0; 0; 0; 0; 0; 0; 0]%N (Search.new_state 64) SearchRand3.p2) = Panic /\
+  SearchRand3.gm_obs (SearchRand.get_move Generated.Consts.gen_basis SearchRand3.cfgr 0 10 (-1) [5; 0; 3; 0; 0; 0; 0; 0; 0; 0]%N (Search.new_state 64) SearchRand3.p2) = Panic.
+Proof. exact SearchRand3.getmove_scale_panics. Qed.
+Print Assumptions C04_get_move_scale_panics.
+
+(* "The whole variation replays legally": MakePrecise options, no table (SearchExact.SI), any sort setting, both evaluators, any engine
+   state left by earlier calls, a call cancelled at any point or never, every board size, games of at most 64 pieces: the line Analyze
+   reports replays from p move by move (Reach1.replay = Position.Move repeatedly) - for EVERY reported value, decisive or not.
+   With a table the replay is tested, not proved. *)
+Theorem C04_pv_replays_precise : forall cfg, SearchExact.precise cfg -> SearchNeg5.builtin_eval cfg ->
+  forall k s p sk pv v d acc c,
+  SearchExact.SI s -> SearchNeg2.base_ok p -> (Preserve1.total p <= 64)%N -> (move p + 16 <= EvalSpec.max_terminal_ply)%Z ->
+  Search.analyze_cancel Generated.Consts.gen_basis cfg k s p = (sk, (pv, v, d, acc, c)) -> exists q, Reach1.replay p pv = Ok q.
+Proof. exact SearchPv2.analyze_pv_replays_64. Qed.
+Print Assumptions C04_pv_replays_precise.
+
+Theorem C04_example_pv_replays :
+  (exists q, Reach1.replay SearchNeg5.q4 (SearchC.r_pv (snd (SearchInst.run_analyze SearchNeg5.cfg3 0 (Search.new_state 0) SearchNeg5.q4))) = Ok q) /\
+  length (SearchC.r_pv (snd (SearchInst.run_analyze SearchNeg5.cfg3 0 (Search.new_state 0) SearchNeg5.q4))) = 3%nat.
+Proof. exact SearchPv2.ex_pv_replays. Qed.
+Print Assumptions C04_example_pv_replays.
